@@ -262,8 +262,8 @@ pub fn gen_c18(rng: &mut Rng) -> Value {
 const C06_BOUND: u64 = 420; // upper bound on the byte length of the enumerated buckets
 
 pub fn c06_exhaustive_count(tier: &str) -> u64 {
-    // shapes x (cuts + flips)
-    let shapes = if tier == "quick" { 1 } else { 3 };
+    // shapes x (cuts + flips); quick: the two-writes shape and the shape ending in a tombstone
+    let shapes = if tier == "quick" { 2 } else { 3 };
     shapes * (C06_BOUND + 8 * C06_BOUND)
 }
 
@@ -285,11 +285,16 @@ fn c06_shape(shape: u64) -> (Vec<String>, Vec<Value>, Vec<Value>) {
 pub fn gen_c06(tier: &str, r: u64, ex: u64, rng: &mut Rng) -> Value {
     if r < ex {
         let per = C06_BOUND + 8 * C06_BOUND;
-        let shape = r / per;
+        let shape = if tier == "quick" { [0u64, 2][(r / per) as usize % 2] } else { r / per };
         let x = r % per;
         let (keys, vals, mut steps) = c06_shape(shape);
         for s in steps.iter_mut() {
             set_flav(s, flav(rng));
+        }
+        // the bucket has been looked at (by some process that stays alive) before the damage happens
+        if x % 3 == 0 {
+            let f = flav(rng);
+            steps.push(json!({"k":"audit","bin":f.0,"mode":f.1,"what":["metadata","list"]}));
         }
         if x < C06_BOUND {
             steps.push(json!({"k":"env","act":"truncate","bucket":0,"len":x,"only_if_shorter":true}));
@@ -320,6 +325,10 @@ pub fn gen_c06(tier: &str, r: u64, ex: u64, rng: &mut Rng) -> Value {
         let mut st = if rng.chance(1, 4) { json!({"k":"api","op":"remove","key":ki}) } else { let vi = rng.idx(3); write_step(rng, Some(ki), vi, vlen(&vals, vi), &wcfg) };
         set_flav(&mut st, flav(rng));
         steps.push(st);
+    }
+    if rng.chance(1, 3) {
+        // looked at before the damage, by processes that stay alive
+        steps.extend(all_flav_audit(&["metadata", "list"]));
     }
     let ndmg = rng.range(1, 2);
     for _ in 0..ndmg {
